@@ -40,7 +40,7 @@ NS = "MjProof.C40."
 THEOREMS = [NS + t for t in (
     "reader_sees_complete", "getSlot_never_torn", "getKey_never_torn", "keys_unique", "slots_dense",
     "slots_stable", "no_fault", "writers_exclusive", "table_changes_only_by_new_key", "reg_slot_sound",
-    "reg_conflict_sound", "linearizable", "spec_register_unique", "spec_reregister_identical",
+    "reg_conflict_sound", "linearizable", "reregistration_linearised", "spec_register_unique", "spec_reregister_identical",
     "spec_reregister_conflict", "spec_register_new", "spec_register_prefix", "spec_lookup_agree", "lookup_agree")]
 
 TRANSLATOR = os.path.join(common.VERIF, "translate", "c40_orders.py")
